@@ -33,6 +33,9 @@ pub struct Cfg {
     pub queries: Vec<Vec<f64>>,
     /// hierarchical: number of clusters to stop at
     pub n_clusters: usize,
+    /// trees: per-row sample weights (empty = unweighted)
+    #[serde(default)]
+    pub weights: Vec<f32>,
 }
 
 fn mat(rows: &[Vec<f64>]) -> Array2<f64> {
@@ -51,7 +54,14 @@ impl Runnable for Cfg {
             return out;
         }
         match self.what {
-            What::Tree => match DecisionTree::<f64, usize>::params().fit(&DatasetBase::new(x.clone(), y)) {
+            What::Tree => match DecisionTree::<f64, usize>::params().fit(&{
+                let ds = DatasetBase::new(x.clone(), y);
+                if self.weights.len() == x.nrows() {
+                    ds.with_weights(Array1::from(self.weights.clone()))
+                } else {
+                    ds
+                }
+            }) {
                 Ok(t) => {
                     let nodes: Vec<_> = t.iter_nodes().collect();
                     out.u64s(
@@ -174,6 +184,7 @@ pub fn cases() -> Vec<Cfg> {
             labels: vec![0, 1],
             queries: vec![],
             n_clusters: 0,
+            weights: vec![],
         },
         // a pure split and a leaf with a 1:1 tie next to a leaf of a third class
         Cfg {
@@ -183,6 +194,7 @@ pub fn cases() -> Vec<Cfg> {
             labels: vec![0, 1, 2, 2, 2],
             queries: vec![],
             n_clusters: 0,
+            weights: vec![],
         },
         // both features are needed, every leaf is pure, no tie anywhere: only `features()` may move
         Cfg {
@@ -192,6 +204,7 @@ pub fn cases() -> Vec<Cfg> {
             labels: vec![0, 0, 1, 1, 0],
             queries: vec![],
             n_clusters: 0,
+            weights: vec![],
         },
         // three classes with weights 1:1:3 left of the split (the smallest counts for which the f32 Gini
         // sum depends on the order of its three terms); no class ties for the maximum anywhere
@@ -202,6 +215,28 @@ pub fn cases() -> Vec<Cfg> {
             labels: vec![0, 1, 2, 2, 2, 0, 0, 0],
             queries: vec![],
             n_clusters: 0,
+            weights: vec![],
+        },
+        // near-tie chain: three identical rows, weights 1, 1+8e-7, 1+1.6e-6 (neighbours within 1e-6, ends not);
+        // exact comparison makes class 2 the modal class, every time
+        Cfg {
+            what: What::Tree,
+            exposes: "near-tie-chain".into(),
+            rows: rows(&[&[0.0], &[0.0], &[0.0]]),
+            labels: vec![0, 1, 2],
+            queries: vec![],
+            n_clusters: 0,
+            weights: vec![1.0, 1.0 + 8e-7, 1.0 + 1.6e-6],
+        },
+        // the same ladder over two decades of step sizes, descending with the label
+        Cfg {
+            what: What::Tree,
+            exposes: "near-tie-chain".into(),
+            rows: rows(&[&[0.0], &[0.0], &[0.0], &[0.0]]),
+            labels: vec![3, 2, 1, 0],
+            queries: vec![],
+            n_clusters: 0,
+            weights: vec![1.0, 1.0 + 8e-6, 1.0 + 1.6e-5, 1.0 + 2.4e-5],
         },
         // control: two classes, one feature, pure leaves
         Cfg {
@@ -211,6 +246,7 @@ pub fn cases() -> Vec<Cfg> {
             labels: vec![0, 0, 0, 1, 1],
             queries: vec![],
             n_clusters: 0,
+            weights: vec![],
         },
         // mirrored classes, query in the middle: both posteriors are bit-equal
         Cfg {
@@ -220,6 +256,7 @@ pub fn cases() -> Vec<Cfg> {
             labels: vec![0, 0, 1, 1],
             queries: rows(&[&[0.0]]),
             n_clusters: 0,
+            weights: vec![],
         },
         Cfg {
             what: What::GaussianNb,
@@ -228,6 +265,7 @@ pub fn cases() -> Vec<Cfg> {
             labels: vec![0, 0, 1, 1],
             queries: rows(&[&[0.5], &[-0.25]]),
             n_clusters: 0,
+            weights: vec![],
         },
         // the two classes have the same single row: every query ties
         Cfg {
@@ -237,6 +275,7 @@ pub fn cases() -> Vec<Cfg> {
             labels: vec![0, 1],
             queries: rows(&[&[1.0, 1.0]]),
             n_clusters: 0,
+            weights: vec![],
         },
         Cfg {
             what: What::MultinomialNb,
@@ -245,6 +284,7 @@ pub fn cases() -> Vec<Cfg> {
             labels: vec![0, 1, 1],
             queries: rows(&[&[2.0, 1.0], &[1.0, 3.0]]),
             n_clusters: 0,
+            weights: vec![],
         },
         // two well separated pairs, stop at two clusters
         Cfg {
@@ -254,6 +294,7 @@ pub fn cases() -> Vec<Cfg> {
             labels: vec![],
             queries: vec![],
             n_clusters: 2,
+            weights: vec![],
         },
         // control: everything merged into one cluster
         Cfg {
@@ -263,6 +304,7 @@ pub fn cases() -> Vec<Cfg> {
             labels: vec![],
             queries: vec![],
             n_clusters: 1,
+            weights: vec![],
         },
     ]
 }
